@@ -51,8 +51,12 @@ def expFx (x : Int) : Int :=
     return acc
   if k ≥ 0 then s * (2 : Int) ^ k.toNat else s / (2 : Int) ^ (-k).toNat
 
+/-- relative precision ≈ 2^-120 over the whole float range: negative arguments through the reciprocal, so that
+    tiny results (down to e^-800, below the smallest float) keep their leading digits -/
 def exp (q : Rat) : Rat :=
-  if q < -800 then 0 else ofFx (expFx (toFx q))
+  if q < -800 then 0
+  else if q < 0 then 1 / ofFx (expFx (toFx (-q)))
+  else ofFx (expFx (toFx q))
 
 /-- natural logarithm of a positive rational -/
 def log (q : Rat) : Rat :=
